@@ -4,6 +4,7 @@
 //! reports, pruning and rapid-gossip-sync snapshots interleaved at every position) against the real
 //! `NetworkGraph` / `P2PGossipSync` / `RapidGossipSync`, with an independent reference model.
 
+mod asyncl;
 mod enumr;
 mod model;
 mod real;
@@ -299,6 +300,19 @@ fn main() {
 		let text = std::fs::read_to_string(path).unwrap_or_else(|e| die(&format!("cannot read {}: {}", path.display(), e)));
 		let v: Value = mc_common::serde_json::from_str(&text).unwrap_or_else(|e| die(&format!("{} does not parse: {}", path.display(), e)));
 		let r = if v.get("replay").is_some() { &v["replay"] } else { &v };
+		if let Some(a) = r.get("async_steps") {
+			let era = r.get("era").and_then(|e| e.as_str()).and_then(Era::parse).unwrap_or_else(|| die("replay: era missing"));
+			let u = w.u(era);
+			let steps = asyncl::steps_from_json(u, a).unwrap_or_else(|| die("replay: bad async steps"));
+			let (problems, _, _) = asyncl::judge(u, &steps);
+			for (o, d) in problems.iter() {
+				println!("REPLAY: VIOLATION oracle={} {}", o, d);
+			}
+			if problems.is_empty() {
+				println!("REPLAY: no oracle fires");
+			}
+			std::process::exit(if problems.is_empty() { 0 } else { 1 });
+		}
 		if r.get("unsigned_sweep").is_some() {
 			// the sweep is small: re-run it and report what it finds
 			let mut found = 0;
@@ -570,7 +584,7 @@ fn main() {
 	ev.assume("secp256k1 (signing and verification) and SHA-256 behave to spec; the reference verifies every signature by calling secp256k1 directly on hand-written BOLT 7 encodings that are cross-checked against LDK's encoders at start-up");
 	ev.assume("_test_utils build: update_channel_internal's wall-clock checks (channel_update older than two weeks / more than a day in the future) are compiled out (cfg not(feature = \"_test_utils\")), so update timestamps from 2001 and 2096 are accepted; production builds reject them before any other rule applies");
 	ev.assume("std build: announcement_received_time, and the removal time recorded by channel_failed_permanent / node_failed_permanent, come from SystemTime::now(); all chosen pruning instants lie more than two weeks outside 2020..2065 so no verdict depends on the clock reading (checked at start-up); the non-std / fuzzing variants (removal time filled in by the next pruning call) are not exercised");
-	ev.assume("UtxoLookup answers synchronously; asynchronous lookups (utxo::PendingChecks) are not exercised");
+	ev.assume("the main families use a UtxoLookup that answers synchronously; asynchronous lookups (utxo::PendingChecks) are covered by the differential async sweep (small pools, every admissible order, lookups answered at every position) whose reference is the synchronous run of the same order");
 	ev.assume("rapid-gossip-sync snapshots are wire format version 1 built by the harness; version 2 node details are not exercised; a snapshot re-adds a channel that was reported permanently failed (add_channel_from_partial_announcement does not consult the removal records) - modelled as such, not judged");
 	ev.assume("a channel announcement for a chain-verified outpoint with different node ids replaces the stored channel (documented reorg handling); such conflicting announcements are outside the enumerated pools");
 	// ---- unsigned entry points: ordering rules hold whichever entry point stores / delivers -------------
@@ -602,6 +616,34 @@ fn main() {
 		ev.set("unsigned_sweep_replacements_made", made);
 		if refused == 0 || made == 0 {
 			die("vacuity guard: the unsigned-entry-point sweep never saw a refused and an accepted replacement");
+		}
+	}
+	// ---- asynchronous UTXO lookups: held messages, replay on resolution (differential against synchronous lookups)
+	if only.is_none() || only.as_deref() == Some("async") {
+		let (mut ex, mut orders, mut held, mut nonempty) = (0u64, 0u64, 0u64, 0u64);
+		for u in w.us.iter() {
+			let o = asyncl::sweep(u, args.tier.is_thorough(), args.threads);
+			ex += o.executions;
+			orders += o.orders;
+			held += o.held_while_pending;
+			nonempty += o.nonempty_finals;
+			let mut per: BTreeMap<String, usize> = BTreeMap::new();
+			for (oracle, detail, steps) in o.problems {
+				let c = per.entry(oracle.clone()).or_insert(0);
+				*c += 1;
+				if *c > 3 {
+					continue;
+				}
+				let identity = format!("{}|{}|{}", oracle, u.era.name(), asyncl::steps_string(u, &steps));
+				violations.push(Violation { property: PROPERTY.into(), oracle, identity, detail, replay: json!({"era": u.era.name(), "async_steps": asyncl::steps_to_json(u, &steps)}) });
+			}
+		}
+		ev.set("async_sweep_executions", ex);
+		ev.set("async_sweep_orders", orders);
+		ev.set("async_sweep_messages_held_while_lookup_pending", held);
+		ev.set("async_sweep_executions_ending_in_a_non_empty_graph", nonempty);
+		if held == 0 || nonempty == 0 {
+			die("vacuity guard: the async-lookup sweep never held a message / never ended in a non-empty graph");
 		}
 	}
 	let code = findings::conclude(PROPERTY, &violations, &mut ev);
